@@ -54,7 +54,11 @@ fn history(out: &mut Out, rng: &mut Rng, pool: &Pool, nops: usize, what: &str, f
                 // a failing call: too-small buffer, PDU too long, bad protocol type, zero label
                 let label = *rng.pick(&ALPHA);
                 let small = rng.pick(&pool.small).clone();
-                match rng.below(5) {
+                let some_exts = [ExtSpec { id: 0x0211, data: vec![1, 2] }, ExtSpec { id: 0x0100, data: vec![] }];
+                match rng.below(8) {
+                    5 => ev_encap(out, &mut enc, &small, 2, label, 0x0800, rng.below(12), Some(&some_exts), None),
+                    6 => ev_encap(out, &mut enc, &pool.toolong, 2, label, 0x0800, 100, Some(&some_exts), None),
+                    7 => ev_encap(out, &mut enc, &small, 2, label, 0x0041, 64, Some(&some_exts), None),
                     0 => ev_encap(out, &mut enc, &small, 2, label, 0x0800, rng.below(4), None, None),
                     1 => ev_encap(out, &mut enc, &pool.toolong, 2, label, 0x0800, 100, None, None),
                     2 => ev_encap(out, &mut enc, &small, 2, label, *rng.pick(&[0x0100u16, 0x05FF, 0x0300]), 64, None, None),
@@ -112,18 +116,131 @@ fn history(out: &mut Out, rng: &mut Rng, pool: &Pool, nops: usize, what: &str, f
     rx.ev_drain(out);
 }
 
-pub fn run(out: &mut Out, seed: u64, thorough: bool) {
+fn label_of(name: &str) -> Label {
+    match name {
+        "A6" => LA6,
+        "B6" => LB6,
+        "A3" => LA3,
+        "B3" => LB3,
+        "BC" => Label::Broadcast,
+        _ => Label::ReUse,
+    }
+}
+
+/// S->I: replay behaviours enumerated by TLC from MC_Labels (inputs only; the real
+/// encapsulator decides by itself whether it substitutes).
+fn run_scn(out: &mut Out, rng: &mut Rng, pool: &Pool, path: &str) {
+    let text = std::fs::read_to_string(path).unwrap_or_default();
+    for line in text.lines() {
+        let mut it = line.split_whitespace();
+        let _ = it.next();
+        let mgr = TableMgr { known: vec![] };
+        let mut rx = mk_rx(out, "labels", "tlc", 3, 64, 2, mgr, true);
+        let mut enc = Encapsulator::new(DefaultCrc {});
+        for (k, tok) in it.enumerate() {
+            let mut p = tok.split(':');
+            let op = p.next().unwrap_or("");
+            let arg = p.next().unwrap_or("0");
+            let pdu = &pool.small[k % pool.small.len()];
+            match op {
+                "send" => {
+                    let t = ev_encap(out, &mut enc, pdu, 1, label_of(arg), 0x0800, 64, None, None);
+                    feed_tx(out, &mut rx, &t);
+                }
+                "starve" => {
+                    // the receiver has no storage for this packet
+                    let mut taken = vec![];
+                    while let Some(b) = rx.ev_take(out) {
+                        taken.push(b);
+                    }
+                    let t = ev_encap(out, &mut enc, pdu, 1, label_of(arg), 0x0800, 64, None, None);
+                    feed_tx(out, &mut rx, &t);
+                    for b in taken {
+                        rx.ev_provision_buf(out, b);
+                    }
+                }
+                "fail" => {
+                    let label = label_of(arg);
+                    let some_exts = [ExtSpec { id: 0x0322, data: vec![1, 2, 3, 4] }];
+                    match (k + arg.len() + line.len()) % 5 {
+                        3 => ev_encap(out, &mut enc, pdu, 2, label, 0x0800, rng.below(12), Some(&some_exts), None),
+                        4 => ev_encap(out, &mut enc, &pool.toolong, 2, label, 0x0800, 100, Some(&some_exts), None),
+                        0 => ev_encap(out, &mut enc, pdu, 2, label, 0x0800, rng.below(4), None, None),
+                        1 => ev_encap(out, &mut enc, &pool.toolong, 2, label, 0x0800, 100, None, None),
+                        _ => ev_encap(out, &mut enc, pdu, 2, label, 0x0100, 64, None, None),
+                    };
+                }
+                "other" => {
+                    let stray = P { kind: 0, lt: 3, fragid: 99, tl: 0, ptype: 0, label: vec![], chain: vec![], payload: vec![1, 2], crc: 0, gse_len: None };
+                    feed(out, &mut rx, &stray.ser(), vec![]);
+                }
+                "reset" => {
+                    ev_cfg(out, &mut enc, Cfg::Reset);
+                    rx.ev_reset(out);
+                }
+                "disable" => ev_cfg(out, &mut enc, Cfg::Disable),
+                "enable" => ev_cfg(out, &mut enc, Cfg::Enable),
+                "enable_max" => ev_cfg(out, &mut enc, Cfg::EnableMax(arg.parse().unwrap_or(0))),
+                _ => {}
+            }
+        }
+        // two more sends of the first label so that the state reached is observed
+        let t = ev_encap(out, &mut enc, &pool.small[0], 1, LA6, 0x0800, 64, None, None);
+        feed_tx(out, &mut rx, &t);
+        let t = ev_encap(out, &mut enc, &pool.small[1], 1, LA6, 0x0800, 64, None, None);
+        feed_tx(out, &mut rx, &t);
+        rx.ev_drain(out);
+    }
+}
+
+/// full label, then exactly n re-uses (counter at its maximum), then a failing call of the given
+/// kind, then the same label again twice: the failed call must not have touched the counter
+fn at_max_then_fail(out: &mut Out, pool: &Pool, n: u8, kind: usize) {
+    let mgr = TableMgr { known: vec![] };
+    let mut rx = mk_rx(out, "labels", "at_max_then_fail", 3, 64, 3, mgr, true);
+    let mut enc = Encapsulator::new(DefaultCrc {});
+    ev_cfg(out, &mut enc, Cfg::EnableMax(n));
+    for i in 0..=(n as usize) {
+        let t = ev_encap(out, &mut enc, &pool.small[i % 4], 1, LA6, 0x0800, 64, None, None);
+        feed_tx(out, &mut rx, &t);
+    }
+    let exts = [ExtSpec { id: 0x0211, data: vec![1, 2] }];
+    match kind {
+        0 => ev_encap(out, &mut enc, &pool.small[0], 2, LA6, 0x0800, 3, None, None),
+        1 => ev_encap(out, &mut enc, &pool.toolong, 2, LA6, 0x0800, 100, None, None),
+        2 => ev_encap(out, &mut enc, &pool.small[0], 2, LA6, 0x0800, 9, Some(&exts), None),
+        3 => ev_encap(out, &mut enc, &pool.toolong, 2, LA6, 0x0800, 100, Some(&exts), None),
+        4 => ev_encap(out, &mut enc, &pool.small[0], 2, LA6, 0x0300, 64, None, None),
+        _ => ev_encap(out, &mut enc, &pool.small[0], 2, LA6, 0x0041, 64, Some(&exts), None),
+    };
+    for i in 0..3 {
+        let t = ev_encap(out, &mut enc, &pool.small[i % 4], 1, LA6, 0x0800, 64, None, None);
+        feed_tx(out, &mut rx, &t);
+    }
+    rx.ev_drain(out);
+}
+
+pub fn run(out: &mut Out, seed: u64, thorough: bool, scn: Option<&str>) {
     let mut rng = Rng::new(seed ^ 0x1ABE);
     let pool = Pool {
         small: (0..4).map(|i| Pdu::random(out, 3 + i * 5, &mut rng)).collect(),
         mid: Pdu::random(out, 50, &mut rng),
         toolong: Pdu::random(out, 65534, &mut rng),
     };
+    if let Some(path) = scn {
+        run_scn(out, &mut rng, &pool, path);
+        return;
+    }
     // counter behaviour at the configured maxima, including the wrap at 255
     for (n, reps) in [(0u8, 8usize), (1, 8), (2, 10), (3, 12), (255, if thorough { 600 } else { 300 })] {
         history(out, &mut rng, &pool, 0, "max_run", Some((Cfg::EnableMax(n), LA6, reps)));
     }
     history(out, &mut rng, &pool, 0, "disabled_run", Some((Cfg::Disable, LA3, 6)));
+    for n in [1u8, 2, 3] {
+        for kind in 0..6 {
+            at_max_then_fail(out, &pool, n, kind);
+        }
+    }
     let nh = if thorough { 400 } else { 50 };
     for _ in 0..nh {
         let nops = if thorough { rng.range(20, 200) } else { rng.range(20, 80) };
